@@ -59,6 +59,11 @@ type cursorTokenData struct {
 	CreatedAt int64
 	CallID    string // the call token this cursor belongs to
 	State     interface{}
+	// Method is the stream method that minted the cursor. A continuation
+	// presented on another method's route is refused: the state inside was
+	// never meant for that method's code. Empty on cursors minted without a
+	// method (none in the dispatch path), which are not bound.
+	Method string
 }
 
 // resolvedCall is what an authenticated CallID resolves to — either from the
@@ -458,10 +463,17 @@ func (h *HttpServer) packCallToken(callID string, outputSchema *arrow.Schema, au
 // packCursorToken seals the advancing half. Re-minted every turn; this is
 // the only token a response returns.
 func (h *HttpServer) packCursorToken(callID string, state interface{}, auth *AuthContext) ([]byte, error) {
+	return h.packCursorTokenFor("", callID, state, auth)
+}
+
+// packCursorTokenFor is packCursorToken binding the cursor to the stream
+// method that mints it; see cursorTokenData.Method.
+func (h *HttpServer) packCursorTokenFor(method, callID string, state interface{}, auth *AuthContext) ([]byte, error) {
 	data := cursorTokenData{
 		CreatedAt: time.Now().Unix(),
 		CallID:    callID,
 		State:     state,
+		Method:    method,
 	}
 	return h.sealToken(cursorTokenVersion, &data, stateTokenAad(auth))
 }
